@@ -368,6 +368,14 @@ class C15(Check):
                                  f'{must_fail}: the node started (errors collected: {ctx["errors"][:3]})'))
             return res
         if ctx['exit'] is not None:
+            # also a start-up which ends with an error report runs no phase of any module twice
+            for n in sorted({e[3] for e in log if e[2] in ('earlyInit', 'initModule', 'startModule')}):
+                for k in ('earlyInit', 'initModule', 'startModule'):
+                    if len(events(k, n)) > 1:
+                        res.append(Violation('C15.not-exactly-once', k + '|failed-start',
+                                             f'{n}: {k} ran {len(events(k, n))} times in a start-up which ended with '
+                                             f'{ctx["exit"]}'))
+                        return res
             if not must_fail:
                 # late (poll/shutdown/never) use of a bad attachment is allowed to pass start-up; anything else is not
                 res.append(Violation('C15.unexpected-start-failure', str(ctx['exit'][0]),
